@@ -237,3 +237,326 @@ def explore_c08(ctx, res, replay_ops=None):
 PROPS["C08"] = dict(lean=["ChfVerif.Props.C08"], explore=explore_c08,
                     trusted=["go-diameter, strconv.Atoi, math.Pow10 -> uint32 conversion (amd64) are modelled",
                              "MongoDB replaced by an in-memory store"])
+
+
+# ------------------------------------------------------------------ chf stream (C01, C06, C12, C02, C10)
+
+def strip_annot(line):
+    return " ".join(t for t in line.split(" ") if not t.startswith("#"))
+
+
+def annots(line):
+    d = {}
+    for t in line.split(" "):
+        if t.startswith("#") and "=" in t:
+            k, v = t[1:].split("=", 1)
+            d[k] = v
+    return d
+
+
+class ChfObs:
+    """parsed observation line of the chf stream"""
+
+    def __init__(self, line):
+        self.raw = line
+        self.ok = False
+        t = line.split(" ")
+        self.f = {}
+        self.ues = {}
+        if not t or not t[0].startswith("st="):
+            return
+        i = 0
+        while i < len(t) and "=" in t[i] and not t[i].startswith("nue="):
+            k, v = t[i].split("=", 1)
+            self.f[k] = v
+            i += 1
+        if i >= len(t):
+            return
+        n = int(t[i].split("=")[1])
+        i += 1
+        for _ in range(n):
+            if i + 3 >= len(t):
+                break
+            supi = t[i]
+            money = t[i + 1].split("=", 1)[1]
+            cdr = t[i + 2].split("=", 1)[1]
+            rec = t[i + 3].split("=", 1)[1]
+            self.ues[supi] = dict(money=money, cdr=cdr, rec=rec)
+            i += 4
+        self.ok = True
+
+    def status(self):
+        return int(self.f.get("st", "0"))
+
+    def balances(self):
+        out = {}
+        b = self.f.get("bal", "-")
+        if b != "-":
+            for it in b.split(","):
+                k, v = it.split("=")
+                ue, rg = k.split("/")
+                try:
+                    out[(ue, int(rg))] = int(bytes.fromhex(v if v != "-" else "").decode())
+                except Exception:
+                    pass
+        return out
+
+    def reserved(self):
+        out = {}
+        for supi, u in self.ues.items():
+            if u["money"] != "-":
+                for it in u["money"].split(";"):
+                    rg, v = it.split("=")
+                    out[(supi, int(rg))] = int(v.split("/")[0])
+        return out
+
+    def modes(self):
+        out = {}
+        for supi, u in self.ues.items():
+            if u["money"] != "-":
+                for it in u["money"].split(";"):
+                    rg, v = it.split("=")
+                    out[(supi, int(rg))] = int(v.split("/")[1])
+        return out
+
+    def totals(self):
+        b, r = self.balances(), self.reserved()
+        return {k: v + r.get(k, 0) for k, v in b.items()}
+
+
+def chf_run(ctx, res, n, replay_ops=None, gen_extra=()):
+    r = ctx.stream("chf", n, ops=replay_ops, extra_gen=gen_extra)
+    # correspondence on everything
+    for i, (op, im, mo) in enumerate(zip(r.ops, r.impl, r.model)):
+        if im != strip_annot(mo):
+            res.disagreements += 1
+            res.violation("correspondence", "chf: model and implementation differ",
+                          _history(r.ops, i) + ["# impl:  " + im[:3000], "# model: " + strip_annot(mo)[:3000]],
+                          found_input=False)
+            break
+    return r
+
+
+def _chf_history(ops, i):
+    j = i
+    while j > 0 and ops[j].split()[1] != "reset":
+        j -= 1
+    return ops[j:i + 1]
+
+
+def explore_c01(ctx, res, replay_ops=None):
+    n = n_for(ctx, 600, 6000)
+    r = chf_run(ctx, res, n, replay_ops)
+    prev = None
+    for i, (op, im, mo) in enumerate(zip(r.ops, r.impl, r.model)):
+        t = op.split()
+        kind = t[1]
+        if kind == "reset":
+            prev = None
+            continue
+        if kind in ("acct", "end"):
+            # account (re)definition: totals are re-based
+            prev = None if kind == "end" else prev
+            if kind == "acct" and prev is not None:
+                prev = dict(prev)
+                try:
+                    prev[(t[2], int(t[3]))] = int(bytes.fromhex(t[4]).decode())
+                except Exception:
+                    prev.pop((t[2], int(t[3])), None)
+            elif kind == "acct":
+                prev = {}
+                try:
+                    prev[(t[2], int(t[3]))] = int(bytes.fromhex(t[4]).decode())
+                except Exception:
+                    pass
+            continue
+        a = annots(mo)
+        res.evaluations += 1
+        res.dist[kind] += 1
+        if kind == "credit":
+            # the harness applies the credit to its store; totals move by the amount
+            if prev is not None and (t[2], int(t[3])) in prev:
+                prev = dict(prev)
+                prev[(t[2], int(t[3]))] += int(t[4])
+            continue
+        o = ChfObs(im)
+        if not o.ok:
+            res.violation("oracle", "unparsable observation (crash?)", _chf_history(r.ops, i) + ["# impl: " + im[:500]])
+            prev = None
+            continue
+        cur = o.totals()
+        if a.get("ok") != "1":
+            res.outside_domain["not-in-quantifier(opOKb=0)"] += 1
+            prev = cur
+            continue
+        res.traces_validated += 1
+        net = {}
+        if a.get("net", "-") != "-":
+            for it in a["net"].split(";"):
+                k, v = it.rsplit(":", 1)
+                ue, rg = k.split("/")
+                net[(ue, int(rg))] = int(v)
+        moved = any(v != 0 for v in net.values())
+        if moved:
+            res.nontrivial.add(op)
+            res.dist["money-moved"] += 1
+        res.sample({"op": op[:400], "net(model: credited - rated)": a.get("net"), "impl_totals_after": {"%s/%d" % k: v for k, v in cur.items()}})
+        if prev is not None:
+            for k, v in cur.items():
+                if k in prev:
+                    exp = prev[k] + net.get(k, 0)
+                    if v != exp:
+                        res.violation("oracle", "C01: balance+reservation of %s/%d is %d, expected %d (= %d %+d)" % (
+                            k[0], k[1], v, exp, prev[k], net.get(k, 0)), _chf_history(r.ops, i) + ["# impl: " + im[:1500]])
+                        break
+        prev = cur
+    res.rule = ("histories over the real gin router + processor + rating/account servers (Diameter/TLS, in-memory store): "
+                "1-2 subscribers x 2 rating groups x 1-2 sessions per scenario, unit costs 1,2,3,7,1000, balances 0..100000, "
+                "requested 0..250, used around the last grant (incl. over-reporting), FINAL and other triggers, releases, "
+                "external credits + recharge notifications; judged: every operation inside the quantifier (opOKb, evaluated "
+                "by the Lean driver); non-trivial = operation that moves money; distinct = distinct operation lines")
+
+
+PROPS["C01"] = dict(lean=["ChfVerif.Props.C01"], explore=explore_c01,
+                    trusted=["gin, openapi Deserialize, go-diameter, strconv, the in-memory store are modelled",
+                             "the money movement expected per operation is the Lean term creditedOp - ratedOp of theorem C01_step, "
+                             "evaluated by the driver on the model state (valid while the correspondence holds)"])
+
+
+# ------------------------------------------------------------------ C06
+
+def _parse_req(tokens):
+    """REQ tokens of a chf op -> dict(supi, trigs, usages=[dict(rg, req, conts=[(qmi,total,...)])])"""
+    it = iter(tokens)
+    supi = next(it)
+    nf = next(it)
+    cid, seq, uri, one = next(it), next(it), next(it), next(it)
+    nt = int(next(it))
+    trigs = [next(it) for _ in range(nt)]
+    nu = int(next(it))
+    usages = []
+    for _ in range(nu):
+        rg = int(next(it))
+        rq = next(it)
+        upf = next(it)
+        nc = int(next(it))
+        conts = []
+        for _ in range(nc):
+            conts.append(tuple(int(next(it)) for _ in range(6)))
+        usages.append(dict(rg=rg, req=None if rq == "~" else int(rq), conts=conts))
+    return dict(supi=supi, nf=nf, seq=seq, trigs=trigs, usages=usages)
+
+
+def explore_c06(ctx, res, replay_ops=None):
+    n = n_for(ctx, 900, 8000)
+    r = chf_run(ctx, res, n, replay_ops)
+    kf = ctx.kf_classes()
+    hist_ok = True          # every op so far inside the quantifier and ledger-compliant
+    sess_ok = True          # every op so far compliant per *session*
+    sess_grant = {}         # (sid, rg) -> last grant to that session
+    rg_sessions = {}        # (supi, rg) -> set of sessions that used it
+    cost = {}
+    prev = None
+    negative_seen = set()
+    for i, (op, im, mo) in enumerate(zip(r.ops, r.impl, r.model)):
+        t = op.split()
+        kind = t[1]
+        if kind == "reset":
+            hist_ok, sess_ok, sess_grant, rg_sessions, cost, prev, negative_seen = True, True, {}, {}, {}, None, set()
+            continue
+        if kind == "acct":
+            try:
+                cost[(t[2], int(t[3]))] = int(bytes.fromhex(t[5]).decode())
+                if int(bytes.fromhex(t[4]).decode()) < 0:
+                    hist_ok = sess_ok = False
+            except Exception:
+                hist_ok = sess_ok = False
+            continue
+        if kind == "end":
+            continue
+        a = annots(mo)
+        if a.get("ok") != "1":
+            hist_ok = sess_ok = False
+        if a.get("comp") != "1":
+            hist_ok = False
+        if kind == "credit":
+            continue
+        res.evaluations += 1
+        o = ChfObs(im)
+        if not o.ok:
+            res.violation("oracle", "unparsable observation (crash?)", _chf_history(r.ops, i) + ["# impl: " + im[:500]])
+            continue
+        bal = o.balances()
+        # --- grants of this update
+        if kind in ("update", "release") and o.status() // 100 == 2:
+            sid = t[2]
+            rq = _parse_req(t[3:])
+            muis = [] if o.f.get("mui", "-") == "-" else [m.split(":") for m in o.f["mui"].split(";")]
+            mi = 0
+            pm, pb, pr = (prev.modes(), prev.balances(), prev.reserved()) if prev is not None else ({}, {}, {})
+            seen_rg = set()
+            for u in rq["usages"]:
+                online = [c for c in u["conts"] if c[0] == 1]
+                if not online:
+                    continue
+                used = sum(c[1] for c in online)
+                key = (rq["supi"], u["rg"])
+                rg_sessions.setdefault(key, set()).add(sid)
+                if used > sess_grant.get((sid, u["rg"]), 0):
+                    sess_ok = False
+                if kind == "update" and mi < len(muis):
+                    g = int(muis[mi][1]) if muis[mi][1] != "-" else 0
+                    f = muis[mi][2] == "1"
+                    mi += 1
+                    sess_grant[(sid, u["rg"])] = g
+                    # second sentence of C06, judged on the implementation's own before-state
+                    c = cost.get(key)
+                    if (hist_ok and prev is not None and c and c > 0 and key in pb and u["rg"] not in seen_rg
+                            and pm.get(key, 1) == 1 and "F" not in rq["trigs"] and u["req"] is not None):
+                        avail = pb[key] + pr.get(key, 0) - used * c
+                        want = u["req"] * c
+                        res.traces_validated += 1
+                        if avail < want:
+                            exp_g, exp_f = max(avail, 0) // c, True
+                            res.dist["grant-limited+fui"] += 1
+                            res.nontrivial.add(op)
+                        else:
+                            exp_g, exp_f = u["req"], False
+                            res.dist["grant-full"] += 1
+                        if (g, f) != (exp_g, exp_f):
+                            res.violation("oracle", "C06: granted %d fui=%s, expected %d fui=%s (money available %d, unit cost %d, "
+                                          "requested %d)" % (g, f, exp_g, exp_f, avail, c, u["req"]),
+                                          _chf_history(r.ops, i) + ["# impl: " + im[:1200]])
+                    if g > (u["req"] or 0) and hist_ok:
+                        res.violation("oracle", "C06: granted %d > requested %s" % (g, u["req"]), _chf_history(r.ops, i))
+                elif kind == "release":
+                    sess_grant[(sid, u["rg"])] = 0
+                seen_rg.add(u["rg"])
+        # --- no overdraft
+        for k, v in bal.items():
+            if v < 0 and k not in negative_seen:
+                negative_seen.add(k)
+                if hist_ok:
+                    res.violation("oracle", "C06: balance of %s/%d became %d for a compliant consumer" % (k[0], k[1], v),
+                                  _chf_history(r.ops, i) + ["# impl: " + im[:1200]])
+                elif sess_ok and len(rg_sessions.get(k, ())) > 1 and "reservation-shared-between-sessions" in kf:
+                    res.kf["reservation-shared-between-sessions"] = kf["reservation-shared-between-sessions"]
+                    res.dist["kf:shared-reservation"] += 1
+                elif sess_ok:
+                    res.violation("oracle", "C06: balance of %s/%d became %d although every session stayed within its grants"
+                                  % (k[0], k[1], v), _chf_history(r.ops, i) + ["# impl: " + im[:1200]])
+                else:
+                    res.outside_domain["overdraft-by-non-compliant-consumer"] += 1
+        res.dist["compliant-history" if hist_ok else "non-compliant-history"] += 1
+        if hist_ok:
+            res.sample({"op": op[:300], "impl": strip_annot(im)[:200]})
+        prev = o
+    res.rule = ("same generator as C01 (balances from 0 to several quotas, unit costs 1..1000, used volumes around the "
+                "last grant, 8% offline containers, FINAL triggers, recharges); an operation is judged when the whole history since "
+                "the last reset is inside the quantifier (opOKb) and ledger-compliant (opCompliantB, both evaluated by the "
+                "Lean driver); non-trivial = update whose grant had to be limited (money short); distinct op lines")
+
+
+PROPS["C06"] = dict(lean=["ChfVerif.Props.C06"], explore=explore_c06,
+                    trusted=["as C01; compliance and the quantifier are the Lean predicates of theorem C06 evaluated by the driver",
+                             "the grant oracle (second sentence of C06) is computed from the implementation's own trace"])
